@@ -1,15 +1,26 @@
-(** C04 - calls succeed iff the documented input contract holds; errors name the violation.
-    (The refinement theorem against Spec/Contract.v is added when its proof file lands.) *)
-From Muxide Require Export Model.Base Model.Writer Model.Api Spec.Contract.
+(** C04 - calls succeed iff the documented input contract holds; errors name the violation. *)
+From Muxide Require Export Model.Base Model.F64 Model.Writer Model.Api Spec.Contract Proofs.ContractProofs.
 Open Scope N_scope.
 
 Theorem C04_build_succeeds_iff_video_configured : forall b script,
   (exists m, build b script = inl m) <-> b_video b <> None.
-Proof.
-  intros b script. unfold build. destruct (b_video b) as [[[c w] h]|]; split; intro H.
-  - discriminate.
-  - eexists. reflexivity.
-  - destruct H as [m H]. discriminate.
-  - congruence.
-Qed.
+Proof. exact build_succeeds_iff_video_configured. Qed.
 Print Assumptions C04_build_succeeds_iff_video_configured.
+
+(* one call, any state satisfying the representation invariant: the call succeeds iff it violates
+   no documented precondition, a failure names a precondition this call violates, and the muxer
+   state stands for the updated summary of the accepted history *)
+Theorem C04_step_obeys_contract : forall b m o m' r,
+  Rep b m -> op_ok o -> step m o = (m', r) -> (forall p, r <> RPanic p) ->
+  call_ok b (abs_csum m) o (outcome_of r) = true /\
+  abs_csum m' = csum_next b (abs_csum m) o (outcome_of r) /\ Rep b m'.
+Proof. exact step_obeys_contract. Qed.
+Print Assumptions C04_step_obeys_contract.
+
+(* every history, every sink script *)
+Theorem C04_model_obeys_contract : forall b script m0 ops,
+  build b script = inl m0 -> Forall op_ok ops ->
+  Forall (fun r => forall p, r <> RPanic p) (snd (run m0 ops)) ->
+  check_C04 b ops (map outcome_of (snd (run m0 ops))) = true.
+Proof. exact model_obeys_contract. Qed.
+Print Assumptions C04_model_obeys_contract.
